@@ -348,6 +348,17 @@ def rule_ext_map_domain(ctx):
     pe = db.fn("print_extensions", file=LN)
     cmp_ok = any(n["k"] == "call" and n.get("c") == "strcmp" and "language.name" in [expr_str(pe, a) for a in n.get("a", ())] for n in pe.all_nodes())
     r.check(cmp_ok, "print_extensions/selects-by-table-name", db.loc(pe, pe.l0), "print_extensions no longer selects entries by strcmp with language_names[].name")
+    # the writer visits every entry: in the loop over g_ext_map nothing can skip an entry before the strcmp selection
+    cmp_blocks = [b for b, blk in pe.blocks.items() if any(n["k"] == "call" and n.get("c") == "strcmp" for n in blk["n"])]
+    inner = [(h, body, backs) for h, body, backs in pe.loops() if any(b in body for b in cmp_blocks)]
+    if r.check(bool(inner), "print_extensions/entry-loop", db.loc(pe, pe.l0), "the loop over g_ext_map was not found"):
+        h, body, backs = min(inner, key=lambda x: len(x[1]))
+        cb = [b for b in cmp_blocks if b in body][0]
+        skip = [b for b in backs if not pe.dominates_block(cb, b)]
+        # a back edge that the selection does not dominate = an entry skipped before it was compared
+        r.check(not skip, "print_extensions/no-entry-skipped", db.loc(pe, pe.blocks[skip[0]]["n"][0] if skip and pe.blocks[skip[0]]["n"] else pe.l0),
+                "print_extensions() can go on to the next g_ext_map entry without comparing the current one with the language table: that "
+                "mapping is missing from the written configuration")
     lf = db.fn("language_name_from_flags", file=LN)
     rets = [n for n in lf.all_nodes() if n["k"] == "ret" and n.get("a")]
     r.check(any(expr_str(lf, n["a"][0]) == "language_name.name" for n in rets), "language_name_from_flags/returns-table-name", db.loc(lf, lf.l0),
